@@ -135,3 +135,115 @@ func vh_C09_positions() {
 	vC04AtRest(env, "positions")
 	vReach("positions")
 }
+
+// vh_C09_callsites: the optimisation is invisible however the function was
+// reached and whatever its own name means where it was called from: a
+// tail-recursive function (fixed and variadic parameters, the self call under
+// tail-context wrappers) invoked directly, through an alias, from a caller
+// whose parameter or let-local has the function's name, as an argument, and
+// from inside a closure - against the reference evaluator.
+var vC09Functions = []string{
+	`(defn f [n acc] W)`,
+	`(defn f [n & rest] V)`,
+}
+
+var vC09FixedCores = []string{
+	`(cond (<= n 0) acc (f (- n 1) (+ acc (t n))))`,
+	`(cond (> n 0) (f (- n 1) (+ acc (t n))) acc)`,
+}
+
+var vC09VariadicCores = []string{
+	`(cond (<= n 0) rest (f (- n 1) (t n)))`,
+	`(cond (<= n 0) rest (f (- n 1) (t n) n))`,
+	`(cond (<= n 0) (list n rest) (f (- n 1)))`,
+	`(cond (> n 0) (f (- n 1) rest (t n)) rest)`,
+}
+
+var vC09CallSites = []string{
+	`(f 9001 9002)`,
+	`(def g f) (g 9001 9002)`,
+	`(def g f) (defn via [f] (g 9001 9002)) (via 5)`,
+	`(def g f) (defn via [] (let [f 7] (let [x (g 9001 9002)] x))) (via)`,
+	`(def g f) (defn via [f] (g 9001 9002)) (via (fn [a] a))`,
+	`(defn via [h] (h 9001 9002)) (via f)`,
+	`(def g f) (defn mk [f] (fn [] (g 9001 9002))) ((mk 3))`,
+}
+
+func vh_C09_callsites() {
+	vFormatOpaque(true)
+	env := vEvalEnv(0)
+	w := vC09Wrappers[vChoice("wrap", len(vC09Wrappers))]
+	var def string
+	if vChoice("variadic", 2) == 0 {
+		core := vC09FixedCores[vChoice("core", len(vC09FixedCores))]
+		def = vReplace(vC09Functions[0], "W", vReplace(w, "E", core))
+	} else {
+		core := vC09VariadicCores[vChoice("vcore", len(vC09VariadicCores))]
+		def = vReplace(vC09Functions[1], "V", vReplace(w, "E", core))
+	}
+	site := vC09CallSites[vChoice("site", len(vC09CallSites))]
+	n := vInt64("n")
+	vAssume(n >= 0 && n <= 3)
+	forms := vT(env, def+" "+site+" (t 77)", &SexpInt{Val: n}, vSmallInt("acc"))
+	vDiff(env, forms, "callsites")
+	vC04AtRest(env, "callsites")
+	vReach("callsites")
+}
+
+// vh_C09_rebound: the function's own global name is rebound to a number
+// while an alias still reaches the function.  Without the optimisation the
+// body's (f ...) would then be a call of a number (an error); read as "a
+// function that names itself in tail position continues itself" it gives the
+// value of the un-rebound run.  Either is accepted; anything else - a garbled
+// argument list, a different value, an evaluation that never returns - is not
+// (the engine's step budget turns non-termination into a failed check).
+func vh_C09_rebound() {
+	vFormatOpaque(true)
+	env := vEvalEnv(0)
+	twin := vEvalEnvs[1]
+	w := vC09Wrappers[vChoice("wrap", len(vC09Wrappers))]
+	var def string
+	if vChoice("variadic", 2) == 0 {
+		core := vC09FixedCores[vChoice("core", len(vC09FixedCores))]
+		def = vReplace(vC09Functions[0], "W", vReplace(w, "E", core))
+	} else {
+		core := vC09VariadicCores[vChoice("vcore", len(vC09VariadicCores))]
+		def = vReplace(vC09Functions[1], "V", vReplace(w, "E", core))
+	}
+	n := vInt64("n")
+	vAssume(n >= 1 && n <= 3)
+	acc := vSmallInt("acc")
+	run := func(e *Zlisp, prog string) (Sexp, error, bool) {
+		var res Sexp
+		var err error
+		panicked := false
+		for _, f := range vT(e, prog, &SexpInt{Val: n}, acc) {
+			res, err, panicked = vEval(e, f)
+			if err != nil || panicked {
+				break
+			}
+		}
+		return res, err, panicked
+	}
+	want, errW, pW := run(twin, def+" (def g f) (g 9001 9002)")
+	if errW != nil || pW {
+		vDone()
+	}
+	traceW := append([]int64(nil), vTraceLog...)
+	vTraceLog = nil
+	// the un-rebound run returned: so must this one
+	vSetStepBudget(2000000)
+	vBudgetFails("rebound-name-evaluation-returns")
+	got, err, panicked := run(env, def+" (def g f) (def f 5) (g 9001 9002)")
+	vBudgetFails("")
+	vAssert(!panicked, "rebound-no-panic")
+	if panicked {
+		return
+	}
+	if err == nil {
+		vAssert(vSexpEq(got, want), "rebound-name-gives-an-error-or-the-self-recursive-value")
+		vAssert(len(vTraceLog) == len(traceW), "rebound-name-same-effects")
+	}
+	vC04AtRest(env, "rebound")
+	vReach("rebound")
+}
